@@ -321,10 +321,12 @@ def restrict(d, data, m, lows, sub):
 @meta(bounds="EVERY octet string of length lo..n (n=3 quick, 4 thorough; length and every octet symbolic), split "
              "into instances by the low nibble (class bit + length/value/type bits) of the first octet and, for "
              "the larger parts, by the second octet being an opening/closing form or not; the empty string is in "
-             "the part of low nibble 0.  Instances labelled `attempt` (length exactly 5, thorough) go beyond the "
-             "property's own bound and are expected to stay inconclusive where the tree is too large",
-      outside="octet strings longer than n (longer hostile strings: decode_one for a single tag up to 7 octets, "
-              "decode_mutated for de-synchronised valid streams)")
+             "the part of low nibble 0.  Instances labelled `beyond-bound` (thorough): length exactly 5 with the "
+             "first octet's low nibble 9..13 (a context tag with 1..5 content octets)",
+      outside="octet strings longer than n, except the listed part of length 5: the other parts of length 5 are "
+              "each as large as the whole length-4 space (tried: low nibble 14 ran 3310 paths in 240 CPU s without "
+              "exhausting) - longer hostile strings are covered by decode_one (a single tag, up to 7 octets) and "
+              "decode_mutated (de-synchronised valid streams of 8-11 octets)")
 def decode_total(d, n, lows, sub=None, lo=0):
     data = listed(d.bytes(lo, n, 'octets'), lo, n)
     restrict(d, data, 16, lows, sub)
@@ -591,9 +593,13 @@ def instances(tier):
         for low in range(16):
             for sub in ((0, 1) if low in nodata else (None,)):
                 out.append(Inst(decode_total, dict(n=4, lows=[low], sub=sub), budget=600))
-        for lows in ([9], [10, 11, 12, 13], [14]):
-            out.append(Inst(decode_total, dict(n=5, lows=lows, lo=5), budget=240,
-                            label="attempt-beyond-bound,n=5,lows=%s" % lows))
+        # beyond the property's own bound: the parts of length 5 whose tree is small enough
+        # (first tag = context tag with 1..5 content octets); every other part of length 5 is
+        # as large as the whole length-4 space (lows=[14] tried: 3310 paths in 240 s, not
+        # exhausted) and is left outside
+        for lows in ([9], [10, 11, 12, 13]):
+            out.append(Inst(decode_total, dict(n=5, lows=lows, lo=5), budget=600,
+                            label="beyond-bound,n=5,lows=%s" % lows))
     # decode_one
     for lows in ([0, 1, 8, 9], [2, 3, 4, 10, 11, 12], [5], [13], [6, 7, 14, 15]):
         out.append(Inst(decode_one, dict(n=7, lows=lows), budget=b))
